@@ -112,12 +112,29 @@ def run(ctx):
     import re as _re
     DOC_ERRORS = {('funcs.t_profiles.periodic_gaussian_t_profile', 'pnum'):
                   'documented "float or astropy.Quantity" by copy-paste; it is a count (used with // and %)'}
+    # the instances confirmed by reading on the baseline tree are frozen here, so that the sweep does not depend on the
+    # docstrings staying as they are; parameters newly documented as Quantity are added to them on every run
+    CONFIRMED = {
+        'frame.Frame.__init__': ('df', 'dt', 'fch1'), 'frame.Frame.from_data': ('df', 'dt', 'fch1'),
+        'frame.Frame.from_backend_params': ('fch1',), 'frame.Frame.add_constant_signal': ('drift_rate', 'f_start', 'width'),
+        'funcs.f_profiles.box_f_profile': ('width',), 'funcs.f_profiles.gaussian_f_profile': ('width',),
+        'funcs.f_profiles.multiple_gaussian_f_profile': ('width',), 'funcs.f_profiles.lorentzian_f_profile': ('width',),
+        'funcs.f_profiles.voigt_f_profile': ('g_width', 'l_width'), 'funcs.f_profiles.sinc2_f_profile': ('width',),
+        'funcs.paths.constant_path': ('drift_rate', 'f_start'), 'funcs.paths.squared_path': ('drift_rate', 'f_start'),
+        'funcs.paths.sine_path': ('amplitude', 'drift_rate', 'f_start', 'period'),
+        'funcs.paths.simple_rfi_path': ('drift_rate', 'f_start', 'spread'),
+        'funcs.t_profiles.sine_t_profile': ('period',),
+        'funcs.t_profiles.periodic_gaussian_t_profile': ('period', 'phase', 'pulse_offset_width', 'pulse_width'),
+        'voltage.antenna.Antenna.__init__': ('fch1',), 'voltage.antenna.MultiAntennaArray.__init__': ('fch1',),
+        'voltage.data_stream.DataStream.__init__': ('fch1',), 'voltage.data_stream.BackgroundDataStream.__init__': ('fch1',),
+    }
     n_q = 0
     for f2 in ctx.prog.functions.values():
         if isinstance(f2.node, ast.Lambda):
             continue
         doc = ast.get_docstring(f2.node) or ''
         qs = {m.group(1) for m in _re.finditer(r'^\s*(\w+)\s*:\s*([^\n]*)$', doc, _re.M) if 'Quantity' in m.group(2)}
+        qs |= set(CONFIRMED.get(f2.short, ()))
         for pn in sorted(qs & set(f2.all_params())):
             if (f2.short, pn) in DOC_ERRORS:
                 continue
